@@ -1,29 +1,38 @@
 """Per-property configuration of bin/check: correspondences (generator profile, case counts,
-comparison mask e m r v c w), non-triviality rule, extra trusted base."""
+comparison mask e p m r v c w), non-triviality rule, extra trusted base."""
 
 def parse_run(profile, mask, nq, nt, extra=None):
     return dict(kind="parse", profile=profile, mask=mask, n_quick=nq, n_thorough=nt, extra=extra or [])
 
-def tok_run(nq_rand, nt_rand, lq=4, lt=5):
-    return dict(kind="tok", profile="tok", mask="111111", n_quick=nq_rand, n_thorough=nt_rand, shards=1,
-                extra=[])
+def tok_run(nq_rand, nt_rand, lq=3, lt=5):
+    return dict(kind="tok", profile="tok", mask="1111111", n_quick=nq_rand, n_thorough=nt_rand, shards=1,
+                extra=["-len", str(lq)], extra_thorough=["-len", str(lt)])
 
 PROPS = {
+    "C01": dict(
+        runs=[parse_run("scalar", "1100110", 5000, 200000), tok_run(20000, 300000)],
+        rule="scalar option kinds x both spellings x 3 modes x value pools (boundary/malformed numerals, dashes, '=', newlines, bytes); non-trivial = a scalar option exists, an option token is present and some value text is not a plain ASCII word",
+    ),
+    "C02": dict(
+        runs=[parse_run("multi", "1101100", 5000, 200000), tok_run(5000, 50000)],
+        rule="slice/map options with 1<=min<=max<=5 and argv of option occurrences with 0..max+1 followers of every token kind; non-trivial = a multi-value option exists and argv has >= 3 tokens",
+    ),
     "C03": dict(
-        runs=[parse_run("general", "001000", 4000, 200000), parse_run("unknown", "001000", 2000, 100000)],
+        runs=[parse_run("general", "0001000", 4000, 200000), parse_run("unknown", "0001000", 2000, 100000),
+              parse_run("bundle", "0001000", 3000, 100000)],
         rule="generated (definition, argv) pairs; non-trivial = argv has >= 3 token kinds and remaining is not empty; distinct by (definition, argv) hash",
         assumptions=["the labels of Proofs/Labels.v describe the parser's own decisions; their meaning is pinned by the C03_label_* theorems"],
     ),
     "C04": dict(
-        runs=[parse_run("term", "001110", 4000, 200000)],
+        runs=[parse_run("term", "0001110", 4000, 200000)],
         rule="argv with `--` planted after every context kind; non-trivial = `--` present and neither first nor last",
     ),
     "C05": dict(
-        runs=[parse_run("abbrev", "100110", 4000, 200000)],
+        runs=[parse_run("abbrev", "1100110", 4000, 200000)],
         rule="every prefix of every key of colliding name sets; non-trivial = name set has two keys sharing a prefix and argv has an option token",
     ),
     "C09": dict(
-        runs=[parse_run("order", "001110", 4000, 200000)],
+        runs=[parse_run("order", "0001110", 4000, 200000)],
         rule="trees with SetRequireOrder at some level; non-trivial = require-order set somewhere and argv has >= 2 tokens",
     ),
 }
